@@ -54,6 +54,99 @@ func TestNagaMSLExtra(t *testing.T) {
 			want: map[gb][]any{{0, 0}: wordsOf(float32(13))},
 		},
 		{
+			name: "firstLeadingBit of an unsigned all-ones value",
+			wgsl: outU + inU + `@compute @workgroup_size(1) fn main() {
+  o[0] = firstLeadingBit(a[0]);                 // 0xFFFFFFFF: most significant 1 bit is bit 31
+  o[1] = firstLeadingBit(a[1]);                 // 0 -> 0xFFFFFFFF
+  o[2] = firstLeadingBit(vec2<u32>(a[0], 0x80000000u)).x + firstLeadingBit(vec2<u32>(a[0], 0x80000000u)).y;  // 31 + 31
+  o[3] = bitcast<u32>(firstLeadingBit(bitcast<i32>(a[0])));   // i32 -1 -> -1
+}`,
+			bufs: map[gb][]byte{{0, 0}: zeros(16), {0, 1}: u32s(0xFFFFFFFF, 0)},
+			want: map[gb][]any{{0, 0}: wordsOf(uint32(31), uint32(0xFFFFFFFF), uint32(62), uint32(0xFFFFFFFF))},
+		},
+		{
+			name: "component of a constant matrix built from splats",
+			wgsl: outF + inF + `@compute @workgroup_size(1) fn main() {
+  const m: mat2x4<f32> = mat2x4<f32>(vec4<f32>(2.0), vec4<f32>(1.0, 2.0, 3.0, 4.0));
+  o[0] = m[0i][0i] + a[0];              // 2 + 5
+  o[1] = m[1][2] + a[0];                // 3 + 5
+}`,
+			bufs: map[gb][]byte{{0, 0}: zeros(8), {0, 1}: f32s(5)},
+			want: map[gb][]any{{0, 0}: wordsOf(float32(7), float32(8))},
+		},
+		{
+			name: "integer remainder assignment through a pointer",
+			wgsl: outI + inI + `
+fn f(p: ptr<function, i32>) { (*p) %= a[1]; }
+@compute @workgroup_size(1) fn main() {
+  var x = a[0];                         // 17
+  f(&x);                                // 17 % 5
+  o[0] = x;
+  var u = 23u;
+  let q = &u;
+  (*q) %= 7u;
+  o[1] = i32(u);
+}`,
+			bufs: map[gb][]byte{{0, 0}: zeros(8), {0, 1}: i32s(17, 5)},
+			want: map[gb][]any{{0, 0}: wordsOf(2, 2)},
+		},
+		{
+			name: "constant-folded matrix sum",
+			wgsl: outF + inF + `@compute @workgroup_size(1) fn main() {
+  var v = (mat2x2<f32>(3.0, 0.75, -1.0, 0.0) + mat2x2<f32>(vec2<f32>(-0.125), vec2<f32>(0.0)));
+  o[0] = v[0][0] + v[1][0] + a[0];      // 2.875 - 1 + 5
+}`,
+			bufs: map[gb][]byte{{0, 0}: zeros(4), {0, 1}: f32s(5)},
+			want: map[gb][]any{{0, 0}: wordsOf(float32(6.875))},
+		},
+		{
+			name: "negative literal in a private struct initializer",
+			wgsl: outI + inI + `
+struct S { a: u32, b: i32, c: array<u32, 2> }
+var<private> pv: S = S(7u, (-1i), array<u32, 2>(1u, 2u));
+@compute @workgroup_size(1) fn main() {
+  o[0] = pv.b + a[0];                   // -1 + 10
+  o[1] = i32(pv.a + pv.c[1]);           // 9
+}`,
+			bufs: map[gb][]byte{{0, 0}: zeros(8), {0, 1}: i32s(10)},
+			want: map[gb][]any{{0, 0}: wordsOf(9, 9)},
+		},
+		{
+			name: "wrapping add on a vec3 member of a local struct",
+			wgsl: "struct S { a: u32, v: vec3<i32>, b: u32 }\n@group(0) @binding(0) var<storage, read_write> o: array<i32>;\n@group(0) @binding(1) var<storage, read> s: S;\n" + `
+@compute @workgroup_size(1) fn main() {
+  let loc = s;
+  let r = (vec3<i32>(-1, 4, -4) & loc.v) + loc.v;   // v = (6, 5, 3): (6, 4, 0) + (6, 5, 3)
+  o[0] = r.x * 100 + r.y * 10 + r.z;
+}`,
+			bufs: map[gb][]byte{{0, 0}: zeros(4), {0, 1}: cat(u32s(1, 0, 0, 0), i32s(6, 5, 3), u32s(2))},
+			want: map[gb][]any{{0, 0}: wordsOf(1293)},
+		},
+		{
+			name: "member of a constant struct that holds a vector",
+			wgsl: outU + inU + `
+struct S { a: i32, b: u32, v: vec3<i32>, c: u32, d: f32 }
+@compute @workgroup_size(1) fn main() {
+  const k: S = S(0i, 3u, vec3<i32>(-3i, 127i, -8i), 2147483648u, 2.5f);
+  o[0] = k.c + a[0];                    // 0x80000000 + 1
+  o[1] = u32(k.d * 2.0) + k.b;          // 5 + 3
+}`,
+			bufs: map[gb][]byte{{0, 0}: zeros(8), {0, 1}: u32s(1)},
+			want: map[gb][]any{{0, 0}: wordsOf(uint32(0x80000001), uint32(8))},
+		},
+		{
+			name: "private initializer with a vector conversion",
+			wgsl: outU + inU + `
+var<private> pv: vec2<bool> = vec2<bool>(vec2<i32>(1, 0));
+var<private> pf: vec2<f32> = vec2<f32>(vec2<u32>(3u, 4u));
+@compute @workgroup_size(1) fn main() {
+  o[0] = u32(pv.x) + u32(pv.y) * 2u + a[0];     // 1 + 0 + 10
+  o[1] = u32(pf.x + pf.y);                      // 7
+}`,
+			bufs: map[gb][]byte{{0, 0}: zeros(8), {0, 1}: u32s(10)},
+			want: map[gb][]any{{0, 0}: wordsOf(uint32(11), uint32(7))},
+		},
+		{
 			name: "integer division and remainder edge cases",
 			wgsl: outI + inI + `@compute @workgroup_size(1) fn main() {
   // WGSL: x / 0 = x, MIN / -1 = MIN, x % 0 = 0, MIN % -1 = 0, % takes the sign of the dividend
